@@ -174,12 +174,13 @@ def lagrange_kernel(ctx):
               (lambda t: t != strip_newtype_fields(t) and item(strip_newtype_fields(t)), ("scal", "xj"))]
     sym, pm, pa = algebra.sym, algebra.pmul, algebra.padd
     cases = {"same": [], "given": [], "none": []}
+    filtered = lagrange_filter(P, f, v)
     try:
         al = Alg(leaves)
         for p in loop_transfer(P, f, v, lp, {ln, ld}):
             if p["end"] != "back":
                 continue
-            s_ = {same(fa) for fa in p["facts"]} - {None}
+            s_ = ({same(fa) for fa in p["facts"]} - {None}) or ({"fail"} if filtered else set())
             g_ = {given(fa) for fa in p["facts"]} - {None}
             nv, dv = component(p["values"][ln], cn), component(p["values"][ld], cd)
             if s_ == {"pass"}:
@@ -191,7 +192,7 @@ def lagrange_kernel(ctx):
     except (Unanalysable, Unbounded) as e:
         ctx.violation("H", f.key, "lagrange-kernel:unanalysable", "Lagrange update not analysable: %s" % e, f.loc)
         return
-    ctx.check(bool(cases["same"]) and all(a and b for a, b in cases["same"]), "RED", f.key, "only-x_i-is-left-out",
+    ctx.check((filtered and not cases["same"]) or (bool(cases["same"]) and all(a and b for a, b in cases["same"])), "RED", f.key, "only-x_i-is-left-out",
               "the iteration for x_j == x_i must leave numerator and denominator unchanged (and be the only one that does)", f.loc)
     want_num = pm(sym("n"), pa(sym("x"), sym("xj"), -1))
     want_den = pm(sym("d"), pa(sym("xi"), sym("xj"), -1))
@@ -245,6 +246,25 @@ def total_of(P, f, v, t):
         if r and not r["after"]:
             return r, t[2][1]
     return None, None
+
+
+def lagrange_filter(P, f, v):
+    """the accumulator loop of compute_lagrange_coefficient runs over `x_set.iter().filter(|x_j| x_i != **x_j)`: x_i is left out by
+    the iterator instead of by a `continue` — True iff there is exactly one filter and that is its predicate"""
+    from ..guards import norm_cond
+    for lp in loop_report(P, f, v):
+        sv = seq_view(lp["iter_term"]) if lp["iter_term"] is not None else None
+        if sv and sv["filters"]:
+            if len(sv["filters"]) != 1:
+                return False
+            body = closure_body(P, sv["filters"][0], {2: ITEM})
+            if body is None:
+                return False
+            kind, a, b, pos = norm_cond(body)
+            xi = lambda t: strip_newtype_fields(t) == ("arg", 3)
+            xj = lambda t: strip_newtype_fields(t) == ITEM
+            return kind == "eq" and not pos and b is not None and ((xi(a) and xj(b)) or (xi(b) and xj(a)))
+    return False
 
 
 def lagrange_accs(f, v):
@@ -357,11 +377,14 @@ def run(ctx):
         v = FnView.get(P, f)
         nd = lagrange_accs(f, v)
         locs = {a[0] for a in nd} if nd else set()
-        lr = reductions(ctx, f.key, adaptors={}, skip={l: same for l in locs}, min_loops=1,
+        flt = lagrange_filter(P, f, v)
+        lr = reductions(ctx, f.key, adaptors=({"filter": 1} if flt else {}), skip={l: same for l in locs}, min_loops=1,
                         labels={l: "num/den" for l in locs})
         if lr:
-            ctx.check(lr[0]["iter_term"] is not None and strip_iter_calls(lr[0]["iter_term"]) == ("arg", 1),
-                      "RED", f.key, "over-the-whole-set", "the Lagrange product must run over x_set.iter()", f.loc)
+            sv = seq_view(lr[0]["iter_term"]) if lr[0]["iter_term"] is not None else None
+            ctx.check(sv is not None and sv["base"] == ("arg", 1) and not sv["drop_front"] and not sv["drop_back"] and
+                      (not sv["filters"] or flt), "RED", f.key, "over-the-whole-set",
+                      "the Lagrange product must run over every element of x_set (x_i itself may be filtered out, nothing else)", f.loc)
     f = ctx.anchor(CORE + "derive_interpolating_value")
     if f:
         v = FnView.get(P, f)
